@@ -96,7 +96,7 @@ def finish(cx, t0, seed=0):
         print("   NOTE " + n)
     rc = 0
     new = []
-    repdir = os.path.join(VERIF, "reports", prop)
+    repdir = os.path.join(os.environ.get("VCHECK_SCRATCH_OUT", VERIF), "reports", prop)
     for o in viol:
         if o.key in known_keys:
             print("KNOWN-FINDING: property=%s %s [%s] %s" % (prop, known_keys[o.key]["what"], o.key, o.loc or ""))
@@ -175,6 +175,9 @@ def write_evidence(cx, t0, seed, nviol, nknown):
         "wall_s": round(time.time() - t0, 2),
         "violations": nviol,
     }
-    os.makedirs(os.path.join(VERIF, "evidence"), exist_ok=True)
-    with open(os.path.join(VERIF, "evidence", prop + ".json"), "w") as fh:
+    # VCHECK_SCRATCH_OUT redirects evidence / reports of experiments on scratch copies (tools/benign_check.sh); the
+    # registered commands never set it
+    outbase = os.environ.get("VCHECK_SCRATCH_OUT", VERIF)
+    os.makedirs(os.path.join(outbase, "evidence"), exist_ok=True)
+    with open(os.path.join(outbase, "evidence", prop + ".json"), "w") as fh:
         json.dump(ev, fh, indent=1)
